@@ -2,8 +2,9 @@ CONSTANTS
   Lens = {255}
   Kinds = {"plain", "quoted"}
   MaxAddrs = 60
-  RecBudget = 333
-  StaleLenByte = FALSE
+  RecBudget = 331
+  HdrBudget = 104
+  QuoteBug = FALSE
   Truncate = FALSE
 INIT Init
 NEXT Next
